@@ -16,10 +16,17 @@ package assets
 //     Content-Range `bytes s-e/T` with body = R[s..e], T = len(R) for R the raw file or its full
 //     representation, and s/e are the requested ones when the header is a well-formed single range;
 //     nothing from outside the root is ever returned; HEAD = GET without the body.
+//     The root also holds a few LARGE assets whose sizes sit on the handler's own size constants
+//     (MaxAssetSize - 1, MaxAssetSize, MaxAssetSize + 1, 1.5 x MaxAssetSize, maxAssetCacheSize/2 + 1).
+//     Their content is a formula of the offset (c39GenByte), so they travel to the Lean driver as
+//     `gen:N:K` and large bodies are compared by length + FNV-1a; a fixed set of requests and a thin
+//     share of the random stream ask them for ranges wider than / exactly / just under MaxAssetSize,
+//     open-ended from small offsets, ending beyond EOF, and around the cache limit.
 
 import (
 	"bytes"
 	"fmt"
+	"hash/fnv"
 	"math/rand"
 	"net/http"
 	"net/http/httptest"
@@ -43,8 +50,58 @@ const c39Secret = "C39-SECRET-OUTSIDE-THE-ROOT"
 
 type c39Env struct {
 	base, root string
-	files      []string // request paths of existing regular files (with leading slash)
+	files      []string          // request paths of existing regular files (with leading slash)
+	bigFiles   []string          // request paths of the large generated assets
+	bigSalt    map[string]uint64 // absolute file name of a large generated asset -> its salt
 	r          *rand.Rand
+}
+
+// c39BigBody is the body length above which a body is compared by length and FNV-1a 64 instead
+// of byte-for-byte hex (the Lean driver's `bigBody`).
+const c39BigBody = 4096
+
+// c39GenByte is byte i of the generated asset with salt k (the Lean driver's `genByte`).  It mixes
+// high bits of the offset in, so a slice taken at a wrong offset differs even when the offsets
+// agree modulo 256 or 65536.
+func c39GenByte(k uint64, i int) byte {
+	x := uint64(i)*2654435761 + k
+
+	return byte((x >> 24) ^ (x >> 9) ^ x)
+}
+
+func c39Gen(n int, k uint64) []byte {
+	b := make([]byte, n)
+	for i := range b {
+		b[i] = c39GenByte(k, i)
+	}
+
+	return b
+}
+
+func c39IsGen(b []byte, k uint64) bool {
+	for i, c := range b {
+		if c != c39GenByte(k, i) {
+			return false
+		}
+	}
+
+	return true
+}
+
+func c39FNV(b []byte) uint64 {
+	h := fnv.New64a()
+	_, _ = h.Write(b)
+
+	return h.Sum64()
+}
+
+// c39Show renders a body for a failure record; large bodies are summarised.
+func c39Show(b []byte) string {
+	if len(b) <= 256 {
+		return fmt.Sprintf("%q", b)
+	}
+
+	return fmt.Sprintf("len=%d fnv64a=%d first=%x last=%x", len(b), c39FNV(b), b[:8], b[len(b)-8:])
 }
 
 func c39Write(t *testing.T, p string, data []byte) {
@@ -119,6 +176,26 @@ func c39Setup(t *testing.T, r *rand.Rand) *c39Env {
 	_ = os.Symlink("nowhere", filepath.Join(e.root, "dangling.txt"))
 	_ = os.Symlink("loop.txt", filepath.Join(e.root, "loop.txt"))
 	e.files = append(e.files, "/lnk.txt", "/ldir/page.md", "/ldir/deep/x.txt", "/out.txt")
+
+	// large assets, sized by the handler's own constants; content by formula (nothing is kept in memory)
+	e.bigSalt = map[string]uint64{}
+
+	for i, b := range []struct {
+		name string
+		size int
+	}{
+		{"big/under.bin", MaxAssetSize - 1},
+		{"big/exact.bin", MaxAssetSize},
+		{"big/over.txt", MaxAssetSize + 1},
+		{"big/video.mp4", MaxAssetSize + MaxAssetSize/2},
+		{"big/huge.bin", maxAssetCacheSize/2 + 1},
+	} {
+		k := uint64(r.Int63()) + uint64(i)
+		fn := filepath.Join(e.root, b.name)
+		c39Write(t, fn, c39Gen(b.size, k))
+		e.bigSalt[fn] = k
+		e.bigFiles = append(e.bigFiles, "/"+b.name)
+	}
 
 	return e
 }
@@ -232,6 +309,52 @@ func c39Range(r *rand.Rand, n int) string {
 	default:
 		return "bytes=" + a + "-" + b
 	}
+}
+
+// c39BigRange is a Range header for a large asset of n bytes: starts and spans sit on the
+// handler's size constants and on the file's ends; most values are well-formed single ranges.
+func c39BigRange(r *rand.Rand, n int) string {
+	if r.Intn(8) == 0 {
+		return c39Range(r, n)
+	}
+
+	marks := []int{MaxAssetSize, maxAssetCacheSize / 2, n, n - MaxAssetSize, n / 2}
+	start := 0
+
+	switch r.Intn(6) {
+	case 0:
+	case 1:
+		start = 1 + r.Intn(1000)
+	case 2:
+		start = r.Intn(n)
+	default:
+		start = marks[r.Intn(len(marks))] + r.Intn(5) - 2
+	}
+
+	if start < 0 {
+		start = 0
+	}
+
+	span := 0
+
+	switch r.Intn(8) {
+	case 0:
+		return fmt.Sprintf("bytes=%d-", start) // open-ended
+	case 1:
+		return fmt.Sprintf("bytes=%d-%s", start, c39Pick(r, "99999999", "9223372036854775807", strconv.Itoa(n), strconv.Itoa(n+MaxAssetSize)))
+	case 2:
+		span = 1 + r.Intn(n)
+	case 3:
+		span = 1 + r.Intn(3)
+	default:
+		span = marks[r.Intn(len(marks))] + r.Intn(5) - 2
+	}
+
+	if span < 1 {
+		span = 1
+	}
+
+	return fmt.Sprintf("bytes=%d-%d", start, start+span-1)
 }
 
 var c39Segs = []string{"..", ".", "", "sub", "deep", "assets", "dir.d", "ldir", "nope", "...", "..hidden", "root2", "root",
@@ -386,11 +509,18 @@ func (x c39Result) impl() string {
 		clen = x.cl
 	}
 
+	body := ""
+	if len(x.body) > c39BigBody {
+		body = fmt.Sprintf("#%d:%d", len(x.body), c39FNV(x.body))
+	} else {
+		body = verifh.Hex(string(x.body))
+	}
+
 	switch x.status {
 	case 200:
-		return "200 " + clen + " " + verifh.Hex(string(x.body))
+		return "200 " + clen + " " + body
 	case 206:
-		return "206 " + verifh.Hex(x.cr) + " " + clen + " " + verifh.Hex(string(x.body))
+		return "206 " + verifh.Hex(x.cr) + " " + clen + " " + body
 	case 416:
 		return "416 " + verifh.Hex(x.cr)
 	default:
@@ -408,6 +538,17 @@ func c39Xform(path string, raw []byte) []byte {
 	}
 
 	return raw
+}
+
+// c39Want206 says what a 206 with `Content-Range: bytes s-e/T` had to carry.
+func c39Want206(s, e, T int64, raw, full []byte) string {
+	for _, R := range [][]byte{raw, full} {
+		if T == int64(len(R)) && s <= e && e < T {
+			return fmt.Sprintf("Content-Length=%d body=%s (bytes %d..%d of the %d-byte asset)", e-s+1, c39Show(R[s:e+1]), s, e, T)
+		}
+	}
+
+	return fmt.Sprintf("s <= e < T = %d or %d, body = asset[s..e]", len(raw), len(full))
 }
 
 func c39Cached(path string) ([]byte, bool) {
@@ -564,6 +705,32 @@ func TestVerifC39(t *testing.T) {
 		corpus = append(corpus, fixed{p, nil}, fixed{p, []string{"bytes=0-3"}})
 	}
 
+	// large assets: spans wider than, equal to and just under MaxAssetSize; open-ended from a small
+	// offset; ends beyond EOF; whole-file ranges of files of MaxAssetSize-1 / MaxAssetSize / MaxAssetSize+1
+	// bytes; the cached and the too-large-to-cache full load.
+	const mx = MaxAssetSize
+
+	huge := maxAssetCacheSize/2 + 1
+	rg := func(a, b int) []string { return []string{fmt.Sprintf("bytes=%d-%d", a, b)} }
+	op := func(a int) []string { return []string{fmt.Sprintf("bytes=%d-", a)} }
+
+	corpus = append(corpus,
+		fixed{"/big/video.mp4", op(1)},
+		fixed{"/big/video.mp4", rg(0, mx)},
+		fixed{"/big/video.mp4", rg(0, mx-1)},
+		fixed{"/big/video.mp4", rg(mx/2-1, 99999999)},
+		fixed{"/big/video.mp4", nil},
+		fixed{"/big/video.mp4", rg(mx/2, mx+mx/2-1)},
+		fixed{"/big/over.txt", op(0)},
+		fixed{"/big/over.txt", rg(0, mx)},
+		fixed{"/big/over.txt", rg(1, mx)},
+		fixed{"/big/exact.bin", rg(0, mx)},
+		fixed{"/big/under.bin", rg(0, 9999999)},
+		fixed{"/big/huge.bin", nil},
+		fixed{"/big/huge.bin", op(huge - mx - 1)},
+		fixed{"/big/huge.bin", rg(huge-1, huge)},
+	)
+
 	seen := map[string]bool{}
 	n := verifh.N(6000, 120000)
 
@@ -575,6 +742,12 @@ func TestVerifC39(t *testing.T) {
 
 		if i < len(corpus) {
 			path, hdr = corpus[i].path, corpus[i].hdr
+		} else if rr.Intn(verifh.N(1000, 2000)) == 0 {
+			// a thin share of the stream goes to the large assets (each costs the model ~100 MB of list cells)
+			path = e.bigFiles[rr.Intn(len(e.bigFiles))]
+			if st, err := os.Stat(filepath.Join(e.root, path)); err == nil {
+				hdr = []string{c39BigRange(rr, int(st.Size()))}
+			}
 		} else {
 			path = c39Path(e)
 
@@ -622,12 +795,21 @@ func TestVerifC39(t *testing.T) {
 
 		var raw []byte
 
+		big := false
+
 		if st, err := os.Stat(fn); err == nil {
 			if st.IsDir() {
 				node = "dir:" + strconv.FormatInt(st.Size(), 10)
 			} else if b, err := os.ReadFile(fn); err == nil {
 				raw = b
-				node = "file:" + verifh.Hex(string(b))
+
+				// a large generated asset is named by its formula, after checking that the file IS the formula
+				if k, isBig := e.bigSalt[fn]; isBig && c39IsGen(b, k) {
+					node = fmt.Sprintf("file:gen:%d:%d", len(b), k)
+					big = true
+				} else {
+					node = "file:" + verifh.Hex(string(b))
+				}
 			}
 		}
 
@@ -635,10 +817,19 @@ func TestVerifC39(t *testing.T) {
 		cached, hit := c39Cached(path)
 
 		if hit {
-			cacheS = "hit:" + verifh.Hex(string(cached))
+			if big && bytes.Equal(cached, raw) {
+				cacheS = "hit:="
+			} else {
+				cacheS = "hit:" + verifh.Hex(string(cached))
+			}
 		}
 
 		xf := c39Xform(path, raw)
+		xfS := "="
+
+		if !big || !bytes.Equal(xf, raw) {
+			xfS = verifh.Hex(string(xf))
+		}
 		md := []byte{}
 
 		if strings.HasSuffix(path, ".md") {
@@ -664,7 +855,7 @@ func TestVerifC39(t *testing.T) {
 		input := fmt.Sprintf("%s path=%q Range=%q cache=%v minify=%v", method, path, hdr, hit, settings.GetBool(defs.JSMinifySetting))
 
 		cases.Write(verifh.Case{
-			In:   strings.Join([]string{"req", verifh.Hex(path), rangeS, m, node, cacheS, verifh.Hex(string(xf)), verifh.Hex(string(md))}, " "),
+			In:   strings.Join([]string{"req", verifh.Hex(path), rangeS, m, node, cacheS, xfS, verifh.Hex(string(md))}, " "),
 			Impl: res.impl(),
 			Desc: input,
 		})
@@ -700,6 +891,11 @@ func TestVerifC39(t *testing.T) {
 
 		stats.Inc(fmt.Sprintf("status_%d", res.status))
 
+		if big {
+			stats.Inc("big_req")
+			stats.Inc(fmt.Sprintf("big_status_%d", res.status))
+		}
+
 		// ---- direct oracle (no model)
 		if res.panicked != "" {
 			stats.Inc("status_panic")
@@ -713,7 +909,7 @@ func TestVerifC39(t *testing.T) {
 		}
 
 		if bytes.Contains(res.body, []byte(c39Secret)) {
-			fail("escape", "content from outside the asset root was returned", input, string(res.body), "nothing from outside "+e.root)
+			fail("escape", "content from outside the asset root was returned", input, c39Show(res.body), "nothing from outside "+e.root)
 		}
 
 		target, inside := c39Resolve(e.root, path)
@@ -769,7 +965,7 @@ func TestVerifC39(t *testing.T) {
 			stats.Inc("oracle_200")
 
 			if !exists {
-				fail("phantom", "200 for a path that names no regular file under the asset root", input, string(res.body), "an error status")
+				fail("phantom", "200 for a path that names no regular file under the asset root", input, c39Show(res.body), "an error status")
 
 				break
 			}
@@ -779,13 +975,13 @@ func TestVerifC39(t *testing.T) {
 					fail("head", "HEAD response has a body or a wrong Content-Length", input, fmt.Sprintf("len(body)=%d Content-Length=%q", len(res.body), res.cl), strconv.Itoa(len(wantFull)))
 				}
 			} else if !bytes.Equal(res.body, wantFull) {
-				fail("wrong-bytes", "200 body differs from the named file's representation", input, string(res.body), string(wantFull))
+				fail("wrong-bytes", "200 body differs from the named file's representation", input, c39Show(res.body), c39Show(wantFull))
 			}
 		case 206:
 			stats.Inc("oracle_206")
 
 			if !exists {
-				fail("phantom", "206 for a path that names no regular file under the asset root", input, string(res.body), "an error status")
+				fail("phantom", "206 for a path that names no regular file under the asset root", input, c39Show(res.body), "an error status")
 
 				break
 			}
@@ -814,9 +1010,15 @@ func TestVerifC39(t *testing.T) {
 				}
 			}
 
+			if en-s+1 > MaxAssetSize {
+				stats.Inc("oracle_206_span_gt_max")
+			} else if en-s+1 >= MaxAssetSize-1 {
+				stats.Inc("oracle_206_span_at_max")
+			}
+
 			if !ok {
 				fail("bad-content-range", "206 body / Content-Range / Content-Length do not describe a slice of the named file", input,
-					fmt.Sprintf("Content-Range=%q Content-Length=%q body=%q", res.cr, res.cl, res.body), fmt.Sprintf("a slice of %q", wantRaw))
+					fmt.Sprintf("Content-Range=%q Content-Length=%q body=%s", res.cr, res.cl, c39Show(res.body)), c39Want206(s, en, T, wantRaw, wantFull))
 
 				break
 			}
